@@ -319,12 +319,13 @@ Section Meaning.
     pose proof (facts_sem m) as Hsem. destruct (f_flags f m) as [k dflag].
     rewrite facts_swap in Hso. inversion Hso; subst s' u'; clear Hso. cbn [s_base s_ics s_df].
     destruct (wrap_ok (s_df R) (s_ics R) BR HIR) as [HIR1 HeR1].
-    assert (Hden : den inputs (NSet (uuids_of cs) k dflag (cur (s_df L)) (top L) (cur (s_df (wrapS R))) (top (wrapS R))) = Some G).
+    assert (Hden : den inputs (NSet (uuids_of cs) k dflag None (cur (s_df L)) (top L) (cur (s_df (wrapS R))) (top (wrapS R))) = Some G).
     { cbn [den]. rewrite !den_top, HBL. cbn [wrapS with_df s_base s_df]. rewrite HBR. cbn [option_map].
       change (eval_block (cur (s_df L)) (source (s_df L) BL)) with (eval_df (s_df L) BL).
       change (eval_block (cur (wrap (s_df R))) (source (wrap (s_df R)) BR)) with (eval_df (wrap (s_df R)) BR).
       rewrite Hop. cbn [andb wrap cur operand_ok pass_block b_order b_limit].
       rewrite HeR1, Hsem. unfold setop_frames. rewrite Hw. reflexivity. }
+    cbn [dedup_select] in Hden.
     assert (HwfG : wf_frame G).
     { intros r Hr. subst G. simpl in *. apply bagop_In in Hr. apply Nat.eqb_eq in Hw.
       destruct Hr as [Hr|Hr].
@@ -509,20 +510,20 @@ End Meaning.
 (** * Part II: the WITH list evaluates to the intended meaning *)
 Definition is_name (n : node) : Prop := match n with NIn _ => False | _ => True end.
 Definition refs (b : node) : list node :=
-  match b with NIn _ => [] | NSel _ _ _ f0 => [f0] | NSet _ _ _ _ fl _ fr => [fl; fr] end.
+  match b with NIn _ => [] | NSel _ _ _ f0 => [f0] | NSet _ _ _ _ _ fl _ fr => [fl; fr] end.
 Definition ref_ok (avail : list node) (r : node) : Prop := (exists i, r = NIn i) \/ In r avail.
 Fixpoint size (n : node) : nat :=
   match n with
   | NIn _ => 0
   | NSel _ _ _ f0 => S (size f0)
-  | NSet _ _ _ _ fl _ fr => S (Nat.max (size fl) (size fr))
+  | NSet _ _ _ _ _ fl _ fr => S (Nat.max (size fl) (size fr))
   end.
 (** strict upper bound of the uuids used in filters (the WITH-list context is not part of it) *)
 Fixpoint ubound (n : node) : nat :=
   match n with
   | NIn _ => 0
   | NSel _ _ u f0 => Nat.max (match u with Some x => S x | None => 0 end) (ubound f0)
-  | NSet _ _ _ _ fl _ fr => Nat.max (ubound fl) (ubound fr)
+  | NSet _ _ _ u _ fl _ fr => Nat.max (match u with Some x => S x | None => 0 end) (Nat.max (ubound fl) (ubound fr))
   end.
 
 (** a well-formed WITH list, given the names [avail] defined before it: fresh proper names, references
@@ -590,7 +591,7 @@ Lemma resolve_ok inputs e r :
   env_ok inputs e -> ref_ok (map fst e) r -> resolve inputs e r = den inputs r.
 Proof.
   intros He [[i ->]|Hin]; [reflexivity|].
-  destruct r as [i|us b u f0|us k d bl fl br fr]; [reflexivity| |];
+  destruct r as [i|us b u f0|us k d u0 bl fl br fr]; [reflexivity| |];
     (destruct (assoc_of_In _ e Hin) as [v Hv]; cbn [resolve]; rewrite Hv;
      symmetry; apply He; apply assoc_In; exact Hv).
 Qed.
@@ -599,7 +600,7 @@ Lemma eval_body_ok inputs e b :
   env_ok inputs e -> is_name b -> (forall r, In r (refs b) -> ref_ok (map fst e) r) ->
   eval_body inputs e b = den inputs b.
 Proof.
-  intros He Hn Hr. destruct b as [i|us blk u f0|us k d bl fl br fr]; [contradiction| |]; cbn [eval_body den].
+  intros He Hn Hr. destruct b as [i|us blk u f0|us k d u0 bl fl br fr]; [contradiction| |]; cbn [eval_body den].
   - rewrite (resolve_ok inputs e f0 He) by (apply Hr; left; reflexivity). reflexivity.
   - rewrite (resolve_ok inputs e fl He) by (apply Hr; left; reflexivity).
     rewrite (resolve_ok inputs e fr He) by (apply Hr; right; left; reflexivity). reflexivity.
@@ -645,15 +646,20 @@ Proof.
   destruct (H m b Hin) as (_ & H2 & H3 & _). simpl. tauto.
 Qed.
 
+Definition body_ok (b : node) : Prop :=
+  match b with NSet _ _ _ _ bl _ _ _ => NoDup (out_cols (b_sel bl)) | _ => True end.
+Definition bok (cs : list (node * node)) : Prop := forall n b, In (n, b) cs -> body_ok b.
+
 Definition Str (inputs : list frame) (s : st) (u : nat) : Prop :=
   good inputs [] (all_ctes s) /\ meas u (size (top s)) (all_ctes s)
-  /\ ref_ok (map fst (all_ctes s)) (top s) /\ ubound (top s) <= u /\ den inputs (top s) <> None.
+  /\ ref_ok (map fst (all_ctes s)) (top s) /\ ubound (top s) <= u /\ den inputs (top s) <> None
+  /\ bok (all_ctes s).
 
 Lemma Str_weaken inputs s u u' : u <= u' -> Str inputs s u -> Str inputs s u'.
 Proof.
-  intros Hu (H1 & H2 & H3 & H4 & H5).
+  intros Hu (H1 & H2 & H3 & H4 & H5 & H6).
   split; [exact H1|]. split; [eapply meas_weaken; [exact Hu | apply Nat.le_refl | exact H2]|].
-  split; [exact H3|]. split; [lia | exact H5].
+  split; [exact H3|]. split; [lia | split; [exact H5 | exact H6]].
 Qed.
 
 Lemma ref_ok_incl a b r : (forall x, In x a -> In x b) -> ref_ok a r -> ref_ok b r.
@@ -705,7 +711,7 @@ Qed.
 Lemma Str_extend inputs s u d' extra :
   done d' = done (s_df s) ++ extra -> Str inputs s u -> Str inputs (with_df s d') u.
 Proof.
-  intros Hd (H1 & H2 & H3 & H4 & H5).
+  intros Hd (H1 & H2 & H3 & H4 & H5 & H6).
   assert (Hall : all_ctes (with_df s d') = all_ctes s ++ chain_ctes (uuids_of (s_pre s)) (top s) extra).
   { unfold all_ctes, top. cbn [with_df s_pre s_base s_df]. rewrite Hd, chain_ctes_app, app_assoc. reflexivity. }
   assert (Htop : top (with_df s d') = chain_top (uuids_of (s_pre s)) (top s) extra).
@@ -713,11 +719,17 @@ Proof.
   destruct (chain_good inputs (uuids_of (s_pre s)) u extra (map fst (all_ctes s)) (top s) H3 H5) as (G1 & G2 & G3 & G4 & G5 & G6).
   { intros x Hx. apply (meas_name _ _ _ _ H2 Hx). }
   { exact H4. }
-  unfold Str. rewrite Hall, Htop. split; [|split; [|split; [|split]]]; auto.
+  assert (Hchain : forall us base bs, bok (chain_ctes us base bs)).
+  { intros us base bs. revert base. induction bs as [|b0 bs IHb]; intros base n b Hin; simpl in Hin; [contradiction|].
+    destruct Hin as [Hin|Hin]; [inversion Hin; exact I | eapply IHb; exact Hin]. }
+  unfold Str. rewrite Hall, Htop. split; [|split; [|split; [|split; [|split]]]].
   - apply good_app. split; [exact H1 | exact G1].
   - intros n b Hin. apply in_app_or in Hin. destruct Hin as [Hin|Hin]; [|apply G2; exact Hin].
     destruct (H2 n b Hin) as (A1 & A2 & A3 & A4). repeat split; auto. lia.
   - rewrite map_app. exact G3.
+  - exact G5.
+  - exact G6.
+  - intros n b Hin. apply in_app_or in Hin. destruct Hin as [Hin|Hin]; [eapply H6; exact Hin | eapply Hchain; exact Hin].
 Qed.
 
 Lemma pre_init_done c d : exists extra, done (pre_init c d) = done d ++ extra.
@@ -749,6 +761,37 @@ Proof.
   - exists e1. exact H1.
 Qed.
 
+(** ** the uuid filter on a colliding CTE *)
+
+(** reading a set operation through SELECT <its columns> FROM (..) changes nothing *)
+Lemma den_dedup inputs us us' k d uo bl fl br fr :
+  NoDup (out_cols (b_sel bl)) ->
+  den inputs (NSet us k d uo bl fl br fr) = den inputs (NSet us' k d None bl fl br fr).
+Proof.
+  intro Hnd. cbn [den]. destruct (den inputs fl) as [L|]; [|reflexivity]. destruct (den inputs fr) as [R|]; [|reflexivity].
+  destruct (operand_ok bl && operand_ok br); [|reflexivity].
+  destruct (setop_frames (sql_sem (k, d)) (eval_block bl L) (eval_block br R)) as [G|] eqn:E; [|reflexivity].
+  destruct uo as [x|]; [|reflexivity]. cbn [option_map dedup_select]. f_equal.
+  destruct (setop_frames_wf _ _ _ _ (wf_eval_block bl L) (wf_eval_block br R) E) as [Hwf Hc].
+  assert (Hc' : out_cols (b_sel bl) = cols G) by (rewrite Hc; reflexivity).
+  rewrite Hc'. apply eval_pass_block; [exact Hwf | rewrite <- Hc'; exact Hnd].
+Qed.
+
+Lemma add_uuid_facts inputs u b1 b2 :
+  add_uuid u b1 = Some b2 -> body_ok b1 -> ubound b1 <= u ->
+  is_name b2 /\ refs b2 = refs b1 /\ den inputs b2 = den inputs b1 /\ size b2 = size b1 /\ ubound b2 = S u /\ body_ok b2.
+Proof.
+  destruct b1 as [i|us blk uo f0|us k d uo bl fl br fr]; cbn [add_uuid]; intros H Hb Hu; [discriminate| |];
+    inversion H; subst b2; clear H.
+  - cbn [ubound] in *. repeat split; lia.
+  - cbn [body_ok] in *. split; [exact I|]. split; [reflexivity|].
+    split; [rewrite (den_dedup inputs [] us k d (Some u)), (den_dedup inputs us us k d uo) by exact Hb; reflexivity|].
+    split; [reflexivity|]. cbn [ubound] in *. split; [lia | exact Hb].
+Qed.
+
+Lemma rename_body_ok ren b : body_ok b -> body_ok (rename ren b).
+Proof. destruct b; simpl; auto. Qed.
+
 (** ** merging the other side's WITH list ([_add_ctes_to_expression]) *)
 Record MInv (inputs : list frame) (bound u : nat) (names : list node) (ren acc done_ : list (node * node)) : Prop := {
   mi_good : good inputs [] acc;
@@ -769,7 +812,7 @@ Lemma rename_facts inputs ren (acc : list (node * node)) u b :
   is_name (rename ren b) /\ (forall r, In r (refs (rename ren b)) -> ref_ok (map fst acc) r)
   /\ den inputs (rename ren b) = den inputs b /\ size (rename ren b) = size b /\ ubound (rename ren b) <= u.
 Proof.
-  intros Hn Hr Hu. destruct b as [i|us blk uo f0|us k d bl fl br fr]; [contradiction| |]; cbn [rename].
+  intros Hn Hr Hu. destruct b as [i|us blk uo f0|us k d uo bl fl br fr]; [contradiction| |]; cbn [rename].
   - destruct (Hr f0 (or_introl eq_refl)) as (R1 & R2 & R3 & R4).
     split; [exact I|]. split; [intros r [<-|[]]; exact R1|]. cbn [den size ubound] in *.
     rewrite R2, R3. split; [reflexivity|]. split; [reflexivity|]. lia.
@@ -786,11 +829,11 @@ Proof. rewrite map_app. apply in_app_iff. Qed.
 Lemma merge_ok inputs bound u0 : forall inc u names ren acc done_ u' cs,
   merge u names ren acc inc = Some (u', cs) ->
   MInv inputs bound u names ren acc done_ ->
-  good inputs [] (done_ ++ inc) -> meas u0 bound (done_ ++ inc) -> u0 <= u ->
+  good inputs [] (done_ ++ inc) -> meas u0 bound (done_ ++ inc) -> bok (done_ ++ inc) -> u0 <= u ->
   good inputs [] cs /\ meas u' bound cs /\ u <= u' /\ (exists rest, cs = acc ++ rest)
   /\ (forall x, In x (map fst (done_ ++ inc)) -> In x (map fst cs)).
 Proof.
-  induction inc as [|[n b] inc IH]; intros u names ren acc done_ u' cs Hm HI Hg Hms Hu0.
+  induction inc as [|[n b] inc IH]; intros u names ren acc done_ u' cs Hm HI Hg Hms Hbk Hu0.
   - simpl in Hm. inversion Hm; subst u' cs; clear Hm. destruct HI.
     split; [assumption|]. split; [assumption|]. split; [apply Nat.le_refl|].
     split; [exists []; rewrite app_nil_r; reflexivity|].
@@ -813,19 +856,18 @@ Proof.
     cbn [merge] in Hm. unfold memn in Hm.
     destruct (in_dec node_eq_dec n names) as [Hcoll|Hnew].
     + (* name collision: uuid filter, fresh name, later references re-pointed *)
-      destruct (rename ren b) as [i|us blk uo f0|us k d bl fl br fr] eqn:Eb1; [contradiction| |discriminate].
-      cbn [add_uuid] in Hm.
-      set (b2 := NSel [] blk (Some u) f0) in *.
-      assert (Hub2 : ubound b2 = S u).
-      { subst b2. cbn [ubound] in *. lia. }
-      assert (Hd2 : den inputs b2 = den inputs n) by (rewrite <- Hden, <- F3; reflexivity).
-      assert (Hs2 : size b2 = size n) by (rewrite <- Ms1, <- F4; reflexivity).
+      destruct (add_uuid u (rename ren b)) as [b2|] eqn:Ea; [|discriminate].
+      assert (Hbok1 : body_ok (rename ren b)).
+      { apply rename_body_ok. apply (Hbk n b). apply in_or_app. right. left. reflexivity. }
+      destruct (add_uuid_facts inputs u _ b2 Ea Hbok1 F5) as (U1 & U2 & U3 & U4 & Hub2 & U6).
+      assert (Hd2 : den inputs b2 = den inputs n) by (rewrite U3, F3; exact Hden).
+      assert (Hs2 : size b2 = size n) by (rewrite U4, F4; exact Ms1).
       destruct (IH (S u) (b2 :: names) ((n, b2) :: ren) (acc ++ [(b2, b2)]) (done_ ++ [(n, b)]) u' cs Hm) as (R1 & R2 & R3 & R4 & R5).
       * constructor.
         -- apply good_app. split; [apply (mi_good _ _ _ _ _ _ _ HI)|]. cbn [good app].
-           split; [|split; [exact I | split; [exact I | split; [|split; [reflexivity | split; [|exact I]]]]]].
+           split; [|split; [exact U1 | split; [exact U1 | split; [|split; [reflexivity | split; [|exact I]]]]]].
            ++ intro Hin. destruct (meas_name _ _ _ _ (mi_meas _ _ _ _ _ _ _ HI) Hin) as [_ Hb]. lia.
-           ++ intros r Hr. apply F2. exact Hr.
+           ++ intros r Hr. apply F2. rewrite <- U2. exact Hr.
            ++ rewrite Hd2. exact Hdef.
         -- intros x [<-|Hx]; apply in_map_fst_app; [right; left; reflexivity | left; apply (mi_names_in _ _ _ _ _ _ _ HI); exact Hx].
         -- intros x Hx. apply in_map_fst_app in Hx. destruct Hx as [Hx|[<-|[]]]; [|left; left; reflexivity].
@@ -847,6 +889,7 @@ Proof.
            ++ inversion Hin; subst m bd. rewrite Hub2, Hs2. repeat split; lia.
       * rewrite Hrel. exact Hg.
       * rewrite Hrel. exact Hms.
+      * rewrite Hrel. exact Hbk.
       * lia.
       * split; [exact R1|]. split; [exact R2|]. split; [lia|].
         split; [destruct R4 as [rest ->]; exists ((b2, b2) :: rest); rewrite <- app_assoc; reflexivity|].
@@ -876,6 +919,7 @@ Proof.
            ++ inversion Hin; subst m bd. rewrite F4. repeat split; lia.
       * rewrite Hrel. exact Hg.
       * rewrite Hrel. exact Hms.
+      * rewrite Hrel. exact Hbk.
       * exact Hu0.
       * split; [exact R1|]. split; [exact R2|]. split; [exact R3|].
         split; [destruct R4 as [rest ->]; exists ((n, rename ren b) :: rest); rewrite <- app_assoc; reflexivity|].
@@ -887,12 +931,12 @@ Lemma str_add_entry inputs cs n bd u bound names nk :
   good inputs [] cs -> meas u bound cs ->
   is_name n -> is_name bd -> (forall r, In r (refs bd) -> ref_ok (map fst cs) r) ->
   den inputs bd = den inputs n -> den inputs n <> None ->
-  size n = S bound -> size bd = size n -> ubound n <= u -> ubound bd <= u ->
+  size n = S bound -> size bd = size n -> ubound n <= u -> ubound bd <= u -> bok cs -> body_ok bd ->
   Str inputs (mkSt (cs ++ [(n, bd)]) n names (mkDf [] (pass_block names) nk)) u.
 Proof.
-  intros G1 G2 Hn Hb Hr Hd Hdef Hs1 Hs2 Hu1 Hu2.
+  intros G1 G2 Hn Hb Hr Hd Hdef Hs1 Hs2 Hu1 Hu2 Hbk Hbo.
   unfold Str, all_ctes, top. cbn [s_pre s_base s_df done chain_ctes chain_top fold_left]. rewrite app_nil_r.
-  split; [|split; [|split; [|split]]].
+  split; [|split; [|split; [|split; [|split]]]].
   - apply good_app. split; [exact G1|]. cbn [good app].
     split; [|tauto]. intro Hin. destruct (meas_name _ _ _ _ G2 Hin) as [Hs _]. lia.
   - intros m b Hin. apply in_app_or in Hin. destruct Hin as [Hin|[Hin|[]]].
@@ -901,19 +945,64 @@ Proof.
   - right. apply in_map_fst_app. right. left. reflexivity.
   - exact Hu1.
   - exact Hdef.
+  - intros m b Hin. apply in_app_or in Hin. destruct Hin as [Hin|[Hin|[]]]; [eapply Hbk; exact Hin | inversion Hin; subst; exact Hbo].
+Qed.
+
+(** every body of the merged list is a re-pointed / uuid-filtered body of one of the two lists *)
+Lemma merge_bodies (P : node -> Prop) :
+  (forall ren b, P b -> P (rename ren b)) -> (forall u b b2, P b -> add_uuid u b = Some b2 -> P b2) ->
+  forall inc u names ren acc u' cs,
+    merge u names ren acc inc = Some (u', cs) ->
+    (forall n b, In (n, b) acc -> P b) -> (forall n b, In (n, b) inc -> P b) -> forall n b, In (n, b) cs -> P b.
+Proof.
+  intros Hr Ha. induction inc as [|[n0 b0] inc IH]; intros u names ren acc u' cs Hm Hacc Hinc.
+  - simpl in Hm. inversion Hm; subst. exact Hacc.
+  - cbn [merge] in Hm.
+    assert (H0 : P (rename ren b0)) by (apply Hr; apply (Hinc n0); left; reflexivity).
+    assert (Hrest : forall n b, In (n, b) inc -> P b) by (intros n b Hin; apply (Hinc n); right; exact Hin).
+    destruct (memn n0 names).
+    + destruct (add_uuid u (rename ren b0)) as [b2|] eqn:Ea; [|discriminate].
+      apply (IH _ _ _ _ _ _ Hm); [|exact Hrest].
+      intros n b Hin. apply in_app_or in Hin. destruct Hin as [Hin|[Hin|[]]]; [eapply Hacc; exact Hin|].
+      inversion Hin; subst. eapply Ha; eassumption.
+    + apply (IH _ _ _ _ _ _ Hm); [|exact Hrest].
+      intros n b Hin. apply in_app_or in Hin. destruct Hin as [Hin|[Hin|[]]]; [eapply Hacc; exact Hin|].
+      inversion Hin; subst. exact H0.
+Qed.
+
+Lemma merge_bok inc u names ren acc u' cs :
+  merge u names ren acc inc = Some (u', cs) -> bok acc -> bok inc -> bok cs.
+Proof.
+  intros Hm Hacc Hinc. unfold bok.
+  refine (merge_bodies body_ok _ _ inc u names ren acc u' cs Hm Hacc Hinc).
+  - intros ren0 b. apply rename_body_ok.
+  - intros u0 b b2 Hb Ha. destruct b; cbn [add_uuid] in Ha; inversion Ha; subst; simpl in *; auto.
+Qed.
+
+(** [_add_ctes_to_expression] never fails on a list of proper bodies *)
+Lemma merge_total inc : forall u names ren acc,
+  (forall n b, In (n, b) inc -> is_name b) -> merge u names ren acc inc <> None.
+Proof.
+  induction inc as [|[n0 b0] inc IH]; intros u names ren acc Hinc; cbn [merge]; [discriminate|].
+  assert (H0 : is_name (rename ren b0)).
+  { specialize (Hinc n0 b0 (or_introl eq_refl)). destruct b0; simpl in *; auto. }
+  assert (Hrest : forall n b, In (n, b) inc -> is_name b) by (intros n b Hin; apply (Hinc n); right; exact Hin).
+  destruct (memn n0 names); [|apply IH; exact Hrest].
+  destruct (rename ren b0); [contradiction| |]; cbn [add_uuid]; apply IH; exact Hrest.
 Qed.
 
 Lemma set_operation_str inputs f m u nk L R s' u' :
   set_operation f m u nk L R = Some (s', u') ->
   Str inputs L u -> Str inputs R u -> den inputs (s_base s') <> None ->
+  NoDup (out_cols (b_sel (cur (s_df s')))) ->
   Str inputs s' u' /\ u <= u'.
 Proof.
-  intros Hso HL HR Hdef. unfold set_operation in Hso.
+  intros Hso HL HR Hdef Hnd. unfold set_operation in Hso.
   assert (HR1 : Str inputs (wrapS R) u).
   { apply (Str_extend inputs R u (wrap (s_df R)) [cur (s_df R)]); [reflexivity | exact HR]. }
   set (R1 := wrapS R) in *.
   destruct (merge u (map fst (all_ctes L)) [] (all_ctes L) (all_ctes R1)) as [[u2 cs]|] eqn:Em; [|discriminate].
-  destruct HL as (L1 & L2 & L3 & L4 & L5). destruct HR1 as (Q1 & Q2 & Q3 & Q4 & Q5).
+  destruct HL as (L1 & L2 & L3 & L4 & L5 & L6). destruct HR1 as (Q1 & Q2 & Q3 & Q4 & Q5 & Q6).
   set (bound := Nat.max (size (top L)) (size (top R1))).
   destruct (merge_ok inputs bound u (all_ctes R1) u (map fst (all_ctes L)) [] (all_ctes L) [] u2 cs Em)
     as (G1 & G2 & G3 & [rest G4] & G5).
@@ -927,13 +1016,16 @@ Proof.
     - eapply meas_weaken; [apply Nat.le_refl | apply Nat.le_max_l | exact L2]. }
   { exact Q1. }
   { eapply meas_weaken; [apply Nat.le_refl | apply Nat.le_max_r | exact Q2]. }
+  { exact Q6. }
   { apply Nat.le_refl. }
+  pose proof (merge_bok _ _ _ _ _ _ _ Em L6 Q6) as Hbk.
   assert (HrefL : ref_ok (map fst cs) (top L)).
   { eapply ref_ok_incl; [|exact L3]. intros x Hx. rewrite G4. apply in_map_fst_app. left. exact Hx. }
   assert (HrefR : ref_ok (map fst cs) (top R1)).
   { eapply ref_ok_incl; [|exact Q3]. intros x Hx. apply G5. exact Hx. }
   destruct (f_flags f m) as [k d].
-  destruct (f_swap f); inversion Hso; subst s' u'; clear Hso; cbn [s_base] in Hdef; (split; [|exact G3]);
+  destruct (f_swap f); inversion Hso; subst s' u'; clear Hso; cbn [s_base s_df cur pass_block b_sel] in Hdef, Hnd;
+    rewrite out_cols_passthrough in Hnd; (split; [|exact G3]);
     apply (str_add_entry inputs cs _ _ u2 bound); auto; try exact I;
     try (intros r [<-|[<-|[]]]; assumption); try (subst bound; simpl; lia).
 Qed.
@@ -955,7 +1047,7 @@ Section Names.
     - cbn [compile spark_eval] in *. rewrite nth_error_map, Hs in Hc. simpl in Hc. inversion Hc; subst s u'; clear Hc.
       split; [|apply Nat.le_refl]. unfold Str, all_ctes, top. simpl.
       split; [exact I|]. split; [intros n b []|]. split; [left; eexists; reflexivity|]. split; [apply Nat.le_0_l|].
-      rewrite Hs. discriminate.
+      split; [rewrite Hs; discriminate | intros n b []].
     - cbn [compile tree_dom spark_eval] in *.
       destruct (compile c f (map cols inputs) t u) as [[s0 u0]|] eqn:E; [|discriminate].
       inversion Hc; subst s u'; clear Hc.
@@ -964,7 +1056,7 @@ Section Names.
       destruct (IH _ _ _ _ E Hd eq_refl) as [HS Hu]. split; [|exact Hu].
       destruct (compile_done c ops (s_df s0)) as [extra Hx].
       apply (Str_extend inputs s0 u0 _ extra Hx HS).
-    - pose proof (sem_correct c f Hcfg Hlim Hfacts inputs Hin (TSet cl l r) u s u' F Hc Hd Hs) as (B & HB & _).
+    - pose proof (sem_correct c f Hcfg Hlim Hfacts inputs Hin (TSet cl l r) u s u' F Hc Hd Hs) as (B & HB & _ & _ & HIs & _).
       cbn [compile tree_dom spark_eval] in *.
       destruct (compile c f (map cols inputs) l u) as [[L u1]|] eqn:El; [|discriminate].
       destruct (compile c f (map cols inputs) r u1) as [[R u2]|] eqn:Er; [|discriminate].
@@ -978,9 +1070,10 @@ Section Names.
       destruct (pre_set c f (meth_of cl) (s_df L)) as [dL nk] eqn:Eps. cbn [fst] in He1.
       pose proof (Str_extend inputs L u2 dL e1 He1 HSL) as HSL1.
       assert (Hdef : den inputs (s_base s) <> None) by (rewrite HB; discriminate).
+      assert (Hnds : NoDup (out_cols (b_sel (cur (s_df s))))) by (destruct HIs as [(_&_&_&_&Hn) _]; exact Hn).
       assert (Hfin : forall L' R', Str inputs L' u2 -> Str inputs R' u2 ->
                  set_operation f (meth_of cl) u2 nk L' R' = Some (s, u') -> Str inputs s u' /\ u <= u').
-      { intros L' R' H1 H2 H3. destruct (set_operation_str inputs f _ u2 nk L' R' s u' H3 H1 H2 Hdef) as [A1 A2].
+      { intros L' R' H1 H2 H3. destruct (set_operation_str inputs f _ u2 nk L' R' s u' H3 H1 H2 Hdef Hnds) as [A1 A2].
         split; [exact A1 | lia]. }
       destruct cl as [| |allow| | |]; try (apply (Hfin _ _ HSL1 HSR Hc)).
       destruct (byname_items allow _ _) as [li ri].
@@ -1021,3 +1114,96 @@ Section Names.
     eapply compile_correct; eassumption.
   Qed.
 End Names.
+
+(** * sqlframe builds a query for every tree (no operand combination makes the compiler fail) *)
+Fixpoint leaves_ok (ins : list (list string)) (t : tree) : bool :=
+  match t with
+  | TIn i => match nth_error ins i with Some _ => true | None => false end
+  | TOps _ t' => leaves_ok ins t'
+  | TSet _ l r => leaves_ok ins l && leaves_ok ins r
+  end.
+
+Definition named (cs : list (node * node)) : Prop := forall n b, In (n, b) cs -> is_name b.
+
+Lemma named_chain us bs : forall base, named (chain_ctes us base bs).
+Proof.
+  induction bs as [|b0 bs IH]; intros base n b Hin; simpl in Hin; [contradiction|].
+  destruct Hin as [Hin|Hin]; [inversion Hin; exact I | eapply IH; exact Hin].
+Qed.
+
+Lemma named_all s : named (s_pre s) -> named (all_ctes s).
+Proof.
+  intros H n b Hin. unfold all_ctes in Hin. apply in_app_or in Hin.
+  destruct Hin as [Hin|Hin]; [eapply H; exact Hin | eapply named_chain; exact Hin].
+Qed.
+
+Lemma set_operation_named f m u nk L R s' u' :
+  set_operation f m u nk L R = Some (s', u') -> named (s_pre L) -> named (s_pre R) -> named (s_pre s').
+Proof.
+  unfold set_operation. intros H HL HR.
+  destruct (merge u (map fst (all_ctes L)) [] (all_ctes L) (all_ctes (wrapS R))) as [[u2 cs]|] eqn:Em; [|discriminate].
+  assert (Hcs : named cs).
+  { refine (merge_bodies is_name _ _ _ _ _ _ _ _ _ Em (named_all L HL) (named_all (wrapS R) HR)).
+    - intros ren b Hb. destruct b; simpl in *; auto.
+    - intros u0 b b2 Hb Ha. destruct b; cbn [add_uuid] in Ha; inversion Ha; subst; exact I. }
+  destruct (f_flags f m) as [k d]. inversion H; subst s' u'; clear H. cbn [s_pre].
+  intros n b Hin. apply in_app_or in Hin. destruct Hin as [Hin|[Hin|[]]]; [eapply Hcs; exact Hin|].
+  inversion Hin; subst. destruct (f_swap f); exact I.
+Qed.
+
+Lemma set_operation_total f m u nk L R : named (s_pre R) -> set_operation f m u nk L R <> None.
+Proof.
+  intro HR. unfold set_operation.
+  pose proof (merge_total (all_ctes (wrapS R)) u (map fst (all_ctes L)) [] (all_ctes L) (named_all (wrapS R) HR)) as Hm.
+  destruct (merge _ _ _ _ _) as [[u2 cs]|]; [|contradiction].
+  destruct (f_flags f m). discriminate.
+Qed.
+
+Lemma compile_named c f ins t : forall u s u', compile c f ins t u = Some (s, u') -> named (s_pre s).
+Proof.
+  induction t as [i|ops t IH|cl l IHl r IHr]; intros u s u' H; cbn [compile] in H.
+  - destruct (nth_error ins i); [|discriminate]. inversion H; subst. intros n b [].
+  - destruct (compile c f ins t u) as [[s0 u0]|] eqn:E; [|discriminate]. inversion H; subst. exact (IH _ _ _ E).
+  - destruct (compile c f ins l u) as [[L u1]|] eqn:El; [|discriminate].
+    destruct (compile c f ins r u1) as [[R u2]|] eqn:Er; [|discriminate].
+    pose proof (IHl _ _ _ El) as HL. pose proof (IHr _ _ _ Er) as HR.
+    destruct (pre_set c f (meth_of cl) (s_df L)) as [dL nk].
+    destruct cl as [| |allow| | |]; try (eapply set_operation_named; [exact H | exact HL | exact HR]).
+    destruct (byname_items allow _ _) as [li ri].
+    destruct allow; (eapply set_operation_named; [exact H | exact HL | exact HR]).
+Qed.
+
+Theorem compile_total c f ins t : leaves_ok ins t = true -> forall u, compile c f ins t u <> None.
+Proof.
+  induction t as [i|ops t IH|cl l IHl r IHr]; intros Hl u; cbn [compile leaves_ok] in *.
+  - destruct (nth_error ins i); [discriminate | discriminate].
+  - specialize (IH Hl u). destruct (compile c f ins t u) as [[s0 u0]|]; [discriminate | contradiction].
+  - apply andb_true_iff in Hl. destruct Hl as [H1 H2].
+    specialize (IHl H1 u). destruct (compile c f ins l u) as [[L u1]|] eqn:El; [|contradiction].
+    specialize (IHr H2 u1). destruct (compile c f ins r u1) as [[R u2]|] eqn:Er; [|contradiction].
+    pose proof (compile_named _ _ _ _ _ _ _ Er) as HR.
+    destruct (pre_set c f (meth_of cl) (s_df L)) as [dL nk].
+    destruct cl as [| |allow| | |]; try (apply set_operation_total; exact HR).
+    destruct (byname_items allow _ _) as [li ri]. apply set_operation_total. exact HR.
+Qed.
+
+Lemma spark_leaves inputs t : forall F, spark_eval inputs t = Some F -> leaves_ok (map cols inputs) t = true.
+Proof.
+  induction t as [i|ops t IH|cl l IHl r IHr]; intros F H; cbn [spark_eval leaves_ok] in *.
+  - rewrite nth_error_map, H. reflexivity.
+  - destruct (spark_eval inputs t) as [F0|]; [|discriminate]. eapply IH. reflexivity.
+  - destruct (spark_eval inputs l) as [FL|]; [|discriminate]. destruct (spark_eval inputs r) as [FR|]; [|discriminate].
+    rewrite (IHl _ eq_refl), (IHr _ eq_refl). reflexivity.
+Qed.
+
+(** the theorem without a side condition on the compiler *)
+Theorem sql_eval_total_correct c f :
+  cfg_ok c = true -> limit_ok c -> facts_ok c f = true ->
+  forall inputs t F, inputs_ok inputs -> tree_dom c f (map cols inputs) t = true ->
+    spark_eval inputs t = Some F ->
+    exists G, sql_eval c f inputs t = Some G /\ cols G = cols F /\ Permutation (rows G) (rows F).
+Proof.
+  intros Hc Hl Hf inputs t F Hin Hd Hs.
+  apply (sql_eval_correct c f Hc Hl Hf inputs t F Hin Hd Hs).
+  apply compile_total. eapply spark_leaves. exact Hs.
+Qed.
